@@ -83,11 +83,56 @@ class KernelX(Kernel):
             cs = [self.cond(ast.copy_location(p, node), st, quiet) for p in parts]
             tf = [l for c in cs if c.tf for l in c.tf] if any(c.tf is not None for c in cs) else None
             return Cond(tf, None)
+        if isinstance(node, ast.Call) and dotted(node.func) == 'isinstance' and len(node.args) == 2:
+            v = self.ev(node.args[0], st, quiet=True)
+            types = unparse(node.args[1])
+            TRUE, FALSE = Cond([], [Lin.const(-1)], None, True), Cond([Lin.const(-1)], [], None, True)
+            if isinstance(v, Tup):
+                return TRUE if 'tuple' in types or 'list' in types else FALSE
+            if isinstance(v, Arr) and v.nonesym is None:
+                return TRUE if 'ndarray' in types else FALSE
         v = self.ev(node, st, quiet)
         c = self.as_cond(v, st)
         if c.tf is None and c.ff is None and isinstance(node, (ast.Name, ast.Attribute, ast.Call)):
             return self._flag(node, st)
         return c
+
+    def dnf(self, node, st, want=True, depth=0):
+        """Alternatives (list of fact lists) under which `node` has truth value `want`; None if unknown."""
+        if depth > 4:
+            return None
+        if isinstance(node, ast.UnaryOp) and isinstance(node.op, ast.Not):
+            return self.dnf(node.operand, st, not want, depth + 1)
+        if isinstance(node, ast.BoolOp):
+            conj = isinstance(node.op, ast.And) == want      # conjunction of the parts' `want`
+            parts = [self.dnf(v, st, want, depth + 1) for v in node.values]
+            if conj:
+                if any(p is None for p in parts):
+                    parts = [p if p is not None else [[]] for p in parts]   # unknown conjunct: no facts
+                out = [[]]
+                for p in parts:
+                    out = [a + b for a in out for b in p]
+                    if len(out) > 8:
+                        return None
+                return out
+            if any(p is None for p in parts):
+                return None
+            out = []
+            for p in parts:
+                out.extend(p)
+            return out if len(out) <= 8 else None
+        if isinstance(node, ast.Compare) and len(node.ops) == 1 and isinstance(node.ops[0], (ast.Eq, ast.NotEq)):
+            a = self.ev(node.left, st, quiet=True)
+            b = self.ev(node.comparators[0], st, quiet=True)
+            if isinstance(a, Int) and isinstance(b, Int):
+                eq = isinstance(node.ops[0], ast.Eq) == want
+                x, y = a.lin, b.lin
+                if eq:
+                    return [[x - y, y - x]]
+                return [[y - x - 1], [x - y - 1]]
+        c = self.cond(node, st, quiet=True)
+        f = c.tf if want else c.ff
+        return [list(f)] if f is not None else None
 
     def _flag(self, node, st):
         """Opaque boolean expression -> persistent 0/1 symbol keyed by its text and the current
@@ -232,11 +277,13 @@ class KernelX(Kernel):
         # helpers defined in the repository
         if base in self.helpers and cn in (base, ) or (base in self.helpers and '.' not in cn):
             return self._inline(self.helpers[base], args, kws, st)
-        self.calls.append((cn, node, args, kws, st))
+        self.calls.append((cn, node, args, kws, st.copy() if self.record_stores else st))
         return self._call_result(cn, node, args, kws, st)
 
     def _call_result(self, cn, node, args, kws, st):
         res = (self.contract.get('call_results') or {}).get(cn.split('.')[-1])
+        if res == 'arr':
+            return Arr(fresh(cn.split('.')[-1]), None)
         if res == 'int_nonneg':
             s = Lin.sym(fresh(cn.split('.')[-1]))
             st.facts.add_ge(s)
